@@ -173,6 +173,11 @@ def main():
     a, rep, replay = parse(PROP)
     rep.assumptions = ["the generator named by the implementation (numpy default_rng(seed).choice with replacement) defines 'the resample of a seed'",
                        "member numerics are recomputed with numpy SVD from the resample indices logged by hook H2"]
+    if replay is not None and replay["scenario"].get("kind") == "lifecycle_path":
+        from .. import liferun as _lr
+        _lr.replay_path(rep, replay["scenario"], TAGS)
+        rep.extra["distinct_nontrivial"] = 2
+        return common.finish(rep)
     if replay is not None and replay["scenario"].get("kind") == "scenario":
         out = evaluate(replay["scenario"]["index"], replay["scenario"]["scenario"])
         for prop, clause, msg in out["found"]:
